@@ -17,7 +17,7 @@ func checkC03(c *an.Ctx) {
 	c.Rule("C03.2", "WaitGroup pairing (E8): wg.Add dominates the launch; the stage goroutine registers wg.Done first thing; wg.Wait is outside the loop and dominates every return of Schedule")
 	c.Rule("C03.3", "loop exits (E2/E3): the scheduling loop ends only through the done test or the cancelled flag, which is loaded on every pass before any launch")
 	c.Rule("C03.4", "progress premises (E2): a Waiting stage is left untouched by the gate only on rows where a dependency is Waiting or Running; every other row contributes to readiness or cancels it; the gate starts from true")
-	c.Rule("C03.5", "no unbounded wait in the scheduling goroutine (E8): every blocking operation synchronously reachable from Schedule is a sleep, a WaitGroup wait with Add/Done pairing on all paths, or a short critical section")
+	c.Rule("C03.5", "no unbounded wait in the scheduling goroutine (E8): every blocking operation synchronously reachable from Schedule is a sleep, a WaitGroup wait with Add/Done pairing on all paths, or a short critical section; the only loop under Schedule that sleeps and goes round (a polling wait) is the scheduling loop itself")
 	c.NotDecided = append(c.NotDecided,
 		"liveness under every schedule (fairness of the Go scheduler, tasks that never terminate)",
 		"re-running an already finished graph",
@@ -32,7 +32,7 @@ func checkC03(c *an.Ctx) {
 	wgPairing(c, s, "C03.2")
 	loopExits(c, s, "C03.3")
 	progressPremises(c, s, "C03.4")
-	boundedWaits(c, "C03.5", []*ssa.Function{s.schedule}, "Scheduler.Schedule", nil)
+	boundedWaits(c, "C03.5", []*ssa.Function{s.schedule}, "Scheduler.Schedule", nil, s.outer)
 }
 
 // wgPairing checks C03.2.
